@@ -17,13 +17,20 @@ VARIANTS = [
   ("dense", "elliptic", "Newton", "implicitfast"),
   ("sparse", "pyramidal", "CG", "Euler"),
 ]
+# (variant index, warp mode): the bounds-checked build (C17) and the permuted-schedule build (C11, C29) have their own kernel caches
+JOBS = [(i, "release") for i in range(len(VARIANTS))] + [(0, "debug"), (1, "debug"), (4, "debug"), (0, "sched"), (1, "sched"), (4, "sched")]
 
 
-def one(i):
+def one(j):
   from vf import worker
 
+  i, mode = JOBS[j]
   worker._install_arena_cache()
-  worker._setup_warp("release")
+  if mode == "sched":
+    from vf import sched
+
+    sched.install()
+  worker._setup_warp(mode)
   import mujoco
   import mujoco_warp as mjw
 
@@ -59,7 +66,7 @@ if __name__ == "__main__":
     one(int(sys.argv[1]))
   t0 = time.time()
   env = dict(os.environ, PYTHONPATH=os.path.dirname(os.path.dirname(os.path.abspath(__file__))))
-  ps = [subprocess.Popen([sys.executable, "-m", "vf.warm", str(i)], env=env, stdout=subprocess.DEVNULL, stderr=subprocess.DEVNULL) for i in range(len(VARIANTS))]
+  ps = [subprocess.Popen([sys.executable, "-m", "vf.warm", str(j)], env=env, stdout=subprocess.DEVNULL, stderr=subprocess.DEVNULL) for j in range(len(JOBS))]
   for p in ps:
     try:
       p.wait(timeout=900)
